@@ -25,7 +25,7 @@ Inductive okind :=
 | KOne (n : nid)                         (* create at n / gate or measurement of a qubit simulated at n *)
 | KSend (a b : nid)                      (* send a -> b of a qubit simulated at a (or at b); a = b is the self-addressed send *)
 | KSend3 (a c b : nid)                   (* send a -> b of a qubit simulated at a third node c *)
-| KGate2 (l : nid) (rs : list nid)       (* two-qubit gate issued at l, _lock_nodes over l :: rs *)
+| KGate2 (l : nid)                       (* two-qubit gate issued at l; every _lock_nodes attempt names its remote nodes *)
 | KAny.                                  (* placement may change under a concurrent merge: any lock behaviour, node guards only *)
 
 Definition prog_of (k : okind) : list act :=
@@ -37,7 +37,7 @@ Definition prog_of (k : okind) : list act :=
   end.
 
 Definition disciplined (k : okind) : bool :=
-  match k with KGate2 _ _ | KAny => false | _ => true end.
+  match k with KGate2 _ | KAny => false | _ => true end.
 
 Inductive rq := RFlight | RPoll (r : rid) | RGranted.
 
@@ -52,7 +52,7 @@ Inductive ost :=
 
 Inductive ev :=
 | EIssue (o : opid)
-| ELockn (o : opid)
+| ELockn (o : opid) (rs : list nid)      (* _lock_nodes entered: local node and the simulating nodes rs, as they are now *)
 | EReq (n : nid) (o : opid) (r : rid)
 | EAcq (n : nid) (o : opid) (r : rid)
 | ERel (n : nid) (o : opid) (was : bool)
@@ -153,16 +153,16 @@ Definition step (cfg : list okind) (s : st) (e : ev) : option st :=
       match op_of s o with
       | SIdle =>
           match kind_of cfg o with
-          | KGate2 _ _ => Some (set_op s o SG2Start)
+          | KGate2 _ => Some (set_op s o SG2Start)
           | KAny => Some (set_op s o (SAny []))
           | k => Some (set_op s o (SRun [] (prog_of k) None))
           end
       | _ => None
       end
-  | ELockn o =>
+  | ELockn o rs =>
       match kind_of cfg o, op_of s o with
-      | KGate2 l rs, SG2Start => Some (set_op s o (SG2 (map (fun n => (n, RFlight)) (l :: rs))))
-      | KGate2 l rs, SG2Rel [] => Some (set_op s o (SG2 (map (fun n => (n, RFlight)) (l :: rs))))
+      | KGate2 l, SG2Start => Some (set_op s o (SG2 (map (fun n => (n, RFlight)) (l :: rs))))
+      | KGate2 l, SG2Rel [] => Some (set_op s o (SG2 (map (fun n => (n, RFlight)) (l :: rs))))
       | _, _ => None
       end
   | EReq n o r =>
@@ -211,9 +211,9 @@ Definition step (cfg : list okind) (s : st) (e : ev) : option st :=
       end
   | ETimeout o =>
       match kind_of cfg o, op_of s o with
-      | KGate2 l rs, SG2 reqs =>
-          if all_granted reqs then None
-          else Some (set_orph (set_op s o (SG2Rel (map fst reqs))) (orph s ++ orphans_of l o reqs))
+      | KGate2 l, SG2 reqs =>
+          (* the timer may fire while the answer of the last grant is still on its way: no `all granted` guard *)
+          Some (set_orph (set_op s o (SG2Rel (map fst reqs))) (orph s ++ orphans_of l o reqs))
       | _, _ => None
       end
   | EDone o =>
